@@ -65,18 +65,32 @@ pub(crate) fn named(attr: &StructAttr, ts_name: Expr, fields: &FieldsNamed) -> R
         (0, 1) => quote! {{
             let flattened = #flattened;
             // parentheses around the whole text are dropped; in `(A | B) & (C | D)` the first and the last
-            // parenthesis do not belong together
-            let mut depth = 0i32;
-            let wrapped = flattened.starts_with('(')
-                && flattened.ends_with(')')
-                && flattened.char_indices().all(|(i, c)| {
-                    match c {
-                        '(' => depth += 1,
-                        ')' => depth -= 1,
-                        _ => (),
+            // parenthesis do not belong together. Doc comments and string literals are not looked into.
+            let text = flattened.as_bytes();
+            let (mut depth, mut in_comment, mut in_string) = (0usize, false, false);
+            let mut wrapped = flattened.starts_with('(') && flattened.ends_with(')');
+            let mut i = 0;
+            while wrapped && i < text.len() {
+                if in_comment {
+                    if text[i..].starts_with(b"*/") {
+                        in_comment = false;
+                        i += 1;
                     }
-                    depth > 0 || i + 1 == flattened.len()
-                });
+                } else if in_string {
+                    in_string = text[i] != b'"';
+                } else if text[i..].starts_with(b"/*") {
+                    in_comment = true;
+                    i += 1;
+                } else if text[i] == b'"' {
+                    in_string = true;
+                } else if text[i] == b'(' {
+                    depth += 1;
+                } else if text[i] == b')' {
+                    depth = depth.saturating_sub(1);
+                    wrapped = depth > 0 || i + 1 == text.len();
+                }
+                i += 1;
+            }
             if wrapped {
                 flattened[1..flattened.len() - 1].trim().to_owned()
             } else {
